@@ -25,6 +25,7 @@ From Verif Require Wire.Cbor Wire.Msgpack Wire.Simple Wire.Binc Wire.Json.
 From Verif Require Import C02.Bridge C02.Alloc C02.AllocProofs C02.Steps C02.StepsProofs.
 From Verif Require Wire.JsonTotal Wire.JsonLeaf C02.JsonBridge.
 From Verif Require C02.StepsMsgpack.
+From Verif Require Base.Word Gen.Leaf2 C02.LeafTie.
 Import ListNotations.
 
 (* from Wcbor dec_total / skip_total (Wire/CborTotal.v); the walker from any entry depth d *)
@@ -177,6 +178,29 @@ Theorem C02_alloc : forall (md mil U KL OV : Z), (0 <= U)%Z -> (0 <= KL)%Z -> (0
   (alloc mil OV r <= md * (maxInitLen mil * (U + OV)) + (KL + 64 + 64 * OV + 13 * (U + OV)) * len)%Z.
 Proof. exact alloc_lemma. Qed.
 Print Assumptions C02_alloc.
+
+(* source tie of C02_alloc: the two caps the statement rests on — decInferLen and usable_len of
+   C02/Alloc.v, written by hand — EQUAL the functions the translator regenerates from the current
+   decode.base.go decInferLen / helper.go usableByteSlice on every run (Gen/Leaf2.v), for every
+   argument of their Go types (int = int64, uint = uint64; a []byte is its (len, cap), the content is
+   not looked at); in particular the Go functions never divide by zero nor panic on a slice bound.
+   A behaviour-changing edit of either function breaks this obligation. *)
+Theorem C02_alloc_src_tie :
+  (forall clen maxlen unit : Z, Word.in_s 64 clen -> Word.in_u 64 maxlen -> Word.in_u 64 unit ->
+     Leaf2.decInferLen clen maxlen unit = Ok (decInferLen clen maxlen unit)) /\
+  (forall l c slen : Z, (0 <= l <= c)%Z -> Word.in_s 64 c -> Word.in_s 64 slen ->
+     Leaf2.usableByteSlice (l, c) slen =
+       Ok ((fst (usable_len c slen), LeafTie.usable_cap c slen), snd (usable_len c slen))).
+Proof. exact LeafTie.alloc_src_tie. Qed.
+Print Assumptions C02_alloc_src_tie.
+
+Example C02_alloc_src_tie_nonvacuous :
+  Leaf2.decInferLen 1073741824 1024 0 = Ok 1024%Z /\ Leaf2.decInferLen (-1) 0 16 = Ok 8%Z /\
+  Leaf2.decInferLen 5000000 0 8 = Ok 131072%Z /\
+  Leaf2.usableByteSlice (0, 16)%Z 1099511627776 = Ok ((67108864, 67108864)%Z, true) /\
+  Leaf2.usableByteSlice (3, 16)%Z 9 = Ok ((9, 16)%Z, false) /\
+  Word.in_s 64 1099511627776 /\ Word.in_u 64 0.
+Proof. vm_compute. repeat apply conj; try reflexivity; intro; discriminate. Qed.
 
 (* PARTIAL (a skeleton, not the per-format models): the recursive value walker — read a head, walk
    n values / values until a break — with a step counter (one step per call and per loop
